@@ -72,14 +72,14 @@ def _audit(event, args):
         elif flags is not None:
             w = bool(flags & (os.O_WRONLY | os.O_RDWR | os.O_CREAT | os.O_TRUNC | os.O_APPEND))
         if w and isinstance(path, (str, bytes)):
-            _AUDIT["events"].append(("open-w", os.fsdecode(path)))
+            _AUDIT["events"].append(("open-w", os.path.abspath(os.fsdecode(path))))
     elif event in _WRITE_EVENTS:
         a = args[0] if args else None
         if isinstance(a, (str, bytes)):
             extra = ()
             if event in ("os.rename", "os.link", "os.symlink") and len(args) > 1 and isinstance(args[1], (str, bytes)):
-                extra = (os.fsdecode(args[1]),)
-            _AUDIT["events"].append((event, os.fsdecode(a)) + extra)
+                extra = (os.path.abspath(os.fsdecode(args[1])),)
+            _AUDIT["events"].append((event, os.path.abspath(os.fsdecode(a))) + extra)
 
 
 sys.addaudithook(_audit)
